@@ -22,6 +22,7 @@ const (
 type VKind struct {
 	Ordered bool                    // Keys()/Values() in insertion order, position aligned (LinkedHashMap)
 	Sorted  bool                    // Keys() ascending by key, Values() ascending by value (TreeBidiMap)
+	SortedKeys bool                 // Keys() ascending, Values() position aligned (the three trees, TreeMap)
 	Bidi    bool                    // one-to-one: Put also drops the pair that held the value (C10)
 	GetKey  func(x int) (int, bool) // bidi only
 	Inv     func()
@@ -52,7 +53,7 @@ func vCount(s []int, x int) int {
 
 // VMapStep: one operation on a map holding exactly the pairs (keys[i], vals[i]) (keys pairwise distinct; values too
 // for bidirectional maps), against the finite-map model of C01 / the one-to-one model of C10 / insertion order of C09.
-func VMapStep(m Map[int, int], keys, vals []int, kind VKind) {
+func VMapStep(m Map[int, int], keys, vals []int, kind VKind) ([]int, []int) {
 	op := v.CfgOr("op", -1)
 	if op < 0 {
 		op = v.Split(v.IntIn("op", 0, VOpCount-1), 0, VOpCount-1)
@@ -140,6 +141,15 @@ func VMapStep(m Map[int, int], keys, vals []int, kind VKind) {
 			p := v.Int("probe")
 			v.Assert(vCount(gk, p) == vCount(wk, p), "C01:keys-members")
 			v.Assert(vCount(gv, p) == vCount(wv, p), "C01:values-multiset")
+			if kind.SortedKeys {
+				for i := 1; i < len(gk); i++ {
+					v.Assert(gk[i-1] < gk[i], "C02:keys-ascending")
+				}
+				for i := range gk {
+					x, _ := m.Get(gk[i])
+					v.Assert(gv[i] == x, "C01:values-position-aligned")
+				}
+			}
 			if kind.Sorted {
 				for i := 1; i < len(gk); i++ {
 					v.Assert(gk[i-1] < gk[i], "C02:keys-ascending")
@@ -172,6 +182,17 @@ func VMapStep(m Map[int, int], keys, vals []int, kind VKind) {
 		if j >= 0 {
 			v.Assert(kk == wk[v.Split(j, 0, len(wk)-1)], "C10:inverse-lookup-after-key")
 		}
+	}
+	return wk, wv
+}
+
+// VMapHistory: D operations in a row from a freshly constructed container (every operation, key and value
+// symbolic): complements the one-step check for state that the representation invariant does not describe.
+func VMapHistory(m Map[int, int], kind VKind) {
+	var keys, vals []int
+	D := v.CfgOr("D", 3)
+	for i := 0; i < D; i++ {
+		keys, vals = VMapStep(m, keys, vals, kind)
 	}
 }
 
